@@ -74,10 +74,13 @@ func joinTab(m map[string]string) string {
 	return sb.String()
 }
 
-// JsonTables returns, for a value: ftab (float bits -> emitted text), ctab (binary CID -> string form)
-// and ptab (candidate string -> binary CID or "!" when cid.Decode refuses it) for every string that a
-// decoder could meet in link position: the CID strings themselves and every string value in the tree.
-func JsonTables(v *Val) (ftab, ctab, ptab string) {
+// JsonTables returns, for a value and its encoding (nil when encoding failed): ftab (float bits ->
+// emitted text), ctab (binary CID -> string form) and ptab (candidate string -> binary CID or "!" when
+// cid.Decode refuses it) for every string a decoder can meet in link position: the CID strings, every
+// string value of the tree as inserted, AND every string token of the encoded text as the real refmt
+// tokenizer yields it -- that is the string the decoder sees, e.g. after emitString replaced invalid
+// UTF-8 by U+FFFD.  No length cap: a missing entry is an error of the harness, never a silent skip.
+func JsonTables(v *Val, encoded []byte) (ftab, ctab, ptab string) {
 	fm, cm, pm := map[string]string{}, map[string]string{}, map[string]string{}
 	v.walk(func(x *Val) {
 		switch x.Kind {
@@ -93,11 +96,12 @@ func JsonTables(v *Val) (ftab, ctab, ptab string) {
 				pm[Hex(s)] = cidParseEntry(s)
 			}
 		case KString:
-			if len(x.S) <= 4096 {
-				pm[Hex(x.S)] = cidParseEntry(x.S)
-			}
+			pm[Hex(x.S)] = cidParseEntry(x.S)
 		}
 	})
+	if encoded != nil {
+		jsonStringTokens(encoded, pm)
+	}
 	return joinTab(fm), joinTab(cm), joinTab(pm)
 }
 
@@ -123,19 +127,18 @@ func cidParseEntry(s string) string {
 	return Hex(string(c.Bytes()))
 }
 
-// JsonParseTable tokenizes input with the real refmt tokenizer and returns the cid.Decode result of
+// jsonStringTokens tokenizes input with the real refmt tokenizer and records the cid.Decode result of
 // every string token it yields (a superset of the strings dag-json can meet in link position).
-func JsonParseTable(input []byte) string {
-	pm := map[string]string{}
+func jsonStringTokens(input []byte, pm map[string]string) {
 	d := rjson.NewDecoder(bytes.NewReader(input))
 	_ = Safely(func() error {
-		for i := 0; i < 100000; i++ {
+		for i := 0; i < 1000000; i++ {
 			var tk tok.Token
 			done, err := d.Step(&tk)
 			if err != nil {
 				return nil
 			}
-			if tk.Type == tok.TString && len(tk.Str) <= 4096 {
+			if tk.Type == tok.TString {
 				if _, ok := pm[Hex(tk.Str)]; !ok {
 					pm[Hex(tk.Str)] = cidParseEntry(tk.Str)
 				}
@@ -146,6 +149,12 @@ func JsonParseTable(input []byte) string {
 		}
 		return nil
 	})
+}
+
+// JsonParseTable is the ptab of a decoder input.
+func JsonParseTable(input []byte) string {
+	pm := map[string]string{}
+	jsonStringTokens(input, pm)
 	return joinTab(pm)
 }
 
